@@ -293,7 +293,10 @@ def run_prog(case):
       elif tag == 'result':
         obs.append(result(accs[op[1]], at))
       elif tag == 'snap':
-        obs.append([result(a, at) for a in accs])
+        # `state` is the public property of both metric classes; identity of the Counter objects they hold
+        ptrs = [id(a.state.counter) for a in accs]
+        firsts = list(dict.fromkeys(ptrs))
+        obs.append(dict(rows=[result(a, at) for a in accs], ids=[firsts.index(x) for x in ptrs]))
       elif tag == 'call':
         obs.append(rows_obs(agg()(op[1])))
       elif tag == 'fn':
@@ -694,7 +697,7 @@ def oracle_malformed(case, obs):
         return f"invalid configuration {case['cfg']} was not rejected with ValueError: {x}"
     return None
   prog = case['prog']
-  snaps = [x for op, x in zip(prog, o) if op[0] == 'snap']
+  snaps = [x['rows'] for op, x in zip(prog, o) if op[0] == 'snap']
   if not is_err(o[4]):
     return 'a batch containing a non-str text was accepted'
   if not same(snaps[0], snaps[1]):
@@ -708,6 +711,8 @@ def oracle_c01(case, obs):
   """The statement itself on the real code: any batching / sharding / merge tree = one accumulator, one batch."""
   if case['kind'] == 'malformed':
     return oracle_malformed(case, obs)
+  if case['kind'] != 'c01':
+    return None
   o = obs['obs']
   for x in o:
     if is_err(x):
@@ -724,14 +729,19 @@ def oracle_c11(case, obs):
   """Laws and frame conditions, read off the real results only."""
   if case['kind'] == 'malformed':
     return oracle_malformed(case, obs)
+  if case['kind'] not in ('laws', 'prog'):
+    return None
   if obs['impure']:
     return f"result() is not repeatable / hands out internal storage (at calls {obs['impure']})"
   o = obs['obs']
   for x in o:
     if is_err(x):
       return f"well-formed input raised {x['err']}"
+  for op, x in zip(prog_of(case), o):
+    if op[0] == 'snap' and len(set(x['ids'])) != len(x['ids']):
+      return f"two accumulators hold the same Counter object (identity classes {x['ids']})"
   if case['kind'] == 'laws':
-    snap = o[-1]
+    snap = o[-1]['rows']
     for name, idxs in LAW_GROUPS.items():
       for i in idxs[1:]:
         if not same(snap[idxs[0]], snap[i]):
@@ -743,6 +753,7 @@ def oracle_c11(case, obs):
   for at, (op, x) in enumerate(zip(prog, o)):
     if op[0] != 'snap':
       continue
+    x = x['rows']
     last = prog[at - 1] if at else None
     if prev is not None and last is not None:
       receiver = {'add': last[1] if len(last) > 1 else None, 'merge': last[1] if len(last) > 1 else None}.get(last[0])
@@ -768,6 +779,8 @@ def oracle_c07(case, obs):
       return None if (is_err(o[0]) and o[0]['err'] == 'ValueError') else 'empty texts not rejected with ValueError'
     want = spec_avgalpha(case['texts'])
     return None if same(o[0], want) else f'avg_alphabetical_char_count {o[0]} != mean/variance of the letter counts {want}'
+  if case['kind'] != 'c07':
+    return None
   for x in o:
     if is_err(x):
       return f"well-formed input raised {x['err']}"
@@ -860,20 +873,35 @@ def shrink(case, fails):
   return cur
 
 
-def neighbours(case, rng):
-  for _ in range(300):
-    metric = case['metric'] if case['metric'] in ('ngrams', 'patterns') else 'ngrams'
-    cfg = gen_cfg(rng, metric)
-    kind = case['kind']
-    if kind == 'c01':
-      yield mk_c01(rng, metric, cfg, [gen_batches(rng, metric) for _ in range(rng.randrange(1, 4))])
-    elif kind == 'laws':
-      yield dict(kind='laws', metric=metric, cfg=cfg, api=rng.choice(['object', 'aggfn']),
-                 A=gen_batches(rng, metric, 2), B=gen_batches(rng, metric, 2), C=gen_batches(rng, metric, 2))
-    elif kind == 'c07':
-      yield dict(kind='c07', metric=metric, cfg=cfg, api=rng.choice(['object', 'aggfn']), batches=gen_batches(rng, metric))
-    else:
-      yield dict(kind='c07', metric=metric, cfg=cfg, api='object', batches=gen_batches(rng, metric))
+def _nb_metric(case, rng):
+  metric = case['metric'] if case['metric'] in ('ngrams', 'patterns') else rng.choice(['ngrams', 'patterns'])
+  return metric, (case['cfg'] if rng.random() < 0.5 and case.get('kind') != 'malformed' and 'cfg' in case
+                  else gen_cfg(rng, metric))
+
+
+def neighbours_c01(case, rng):
+  """failing-input search for C01: other compositions / merge trees of similar data, same or a fresh configuration"""
+  for _ in range(400):
+    metric, cfg = _nb_metric(case, rng)
+    yield mk_c01(rng, metric, cfg, [gen_batches(rng, metric) for _ in range(rng.randrange(1, 5))])
+
+
+def neighbours_c11(case, rng):
+  class _C:
+    pass
+  for _ in range(200):
+    metric, cfg = _nb_metric(case, rng)
+    yield dict(kind='laws', metric=metric, cfg=cfg, api=rng.choice(['object', 'aggfn']),
+               A=gen_batches(rng, metric, 2), B=gen_batches(rng, metric, 2), C=gen_batches(rng, metric, 2))
+  ctx = _C()
+  ctx.rng = rng
+  yield from gen_prog(ctx, 300)
+
+
+def neighbours_c07(case, rng):
+  for _ in range(400):
+    metric, cfg = _nb_metric(case, rng)
+    yield dict(kind='c07', metric=metric, cfg=cfg, api=rng.choice(['object', 'aggfn']), batches=gen_batches(rng, metric))
 
 
 # ----------------------------------------------------------------------------- the three sub-checks
@@ -899,7 +927,7 @@ class C01:
   nontrivial = staticmethod(nontrivial_c01)
   finding = staticmethod(finding)
   shrink = staticmethod(shrink)
-  neighbours = staticmethod(neighbours)
+  neighbours = staticmethod(neighbours_c01)
   extra = staticmethod(make_extra('C01'))
 
   @staticmethod
@@ -927,7 +955,7 @@ class C11:
   nontrivial = staticmethod(nontrivial_c11)
   finding = staticmethod(finding)
   shrink = staticmethod(shrink)
-  neighbours = staticmethod(neighbours)
+  neighbours = staticmethod(neighbours_c11)
   extra = staticmethod(make_extra('C11'))
 
   @staticmethod
@@ -957,7 +985,7 @@ class C07:
   nontrivial = staticmethod(nontrivial_c07)
   finding = staticmethod(finding)
   shrink = staticmethod(shrink)
-  neighbours = staticmethod(neighbours)
+  neighbours = staticmethod(neighbours_c07)
   extra = staticmethod(make_extra('C07'))
 
   @staticmethod
